@@ -847,6 +847,56 @@ def binary_level(ctx, exe):
                 responses_per_session=[len(b["msgs"]) if b else None for b in bases])
 
 
+# ---- frames far beyond every buffer size on the way (8 KiB FramedRead buffer, 64 KiB pipe, tokio's 2 MiB stdout chunk) ----
+def big_session(n_out, n_in):
+    """initialize, initialized, a request with an unknown method whose name has n_out bytes (the MethodNotFound answer repeats
+    it), didOpen of a document of n_in bytes (non-ASCII), $/verif/text (the answer repeats the document), shutdown, exit"""
+    name = "m" + "\u00e9x" * (n_out // 3)
+    unit = "// \u4e16\u754c \U0001F600\n"
+    text = unit * (n_in // len(unit.encode("utf-8"))) + "proc main() { }\n"
+    return [req(1, "initialize", {"processId": None, "rootUri": None, "capabilities": {}}), note("initialized", {}),
+            req(2, name, {}),
+            note("textDocument/didOpen", {"textDocument": {"uri": URI, "languageId": "spl", "version": 1, "text": text}}),
+            req(3, "$/verif/text", {"uri": URI}), req(4, "shutdown"), note("exit")], name, text
+
+
+def big_check(exe, n_out, n_in, cuts):
+    msgs, name, text = big_session(n_out, n_in)
+    data = b"".join(lspclient.frame(m) for m in msgs)
+    o = observe(exe, data, cuts, timeout=60.0, delay=0.0)
+    problems = list(o["frame_problems"])
+    got = {m.get("id"): m for m in o["msgs"] if isinstance(m, dict) and "id" in m}
+    if [m.get("id") for m in o["msgs"] if isinstance(m, dict) and "id" in m] != [1, 2, 3, 4]:
+        problems.append("responses carry the ids %r, expected [1, 2, 3, 4]" % [m.get("id") for m in o["msgs"] if isinstance(m, dict)])
+    else:
+        if name not in json.dumps(got[2].get("error", {}), ensure_ascii=False):
+            problems.append("the MethodNotFound answer does not carry the method name of %d bytes" % len(name.encode("utf-8")))
+        if got[3].get("result") != text:
+            problems.append("$/verif/text does not return the document of %d bytes" % len(text.encode("utf-8")))
+    if o["code"] != 0:
+        problems.append("exit status %r" % o["code"])
+    return problems, len(data)
+
+
+def big_level(ctx, exe):
+    rng = ctx.rng
+    fails, runs, sizes = [], 0, []
+    for n_out, n_in in ([(3 << 20, 1 << 16), (1 << 16, 3 << 20), (5 << 20, 5 << 20)] if ctx.thorough() else [(3 << 20, 1 << 16), (70000, 2500000)]):
+        for mode in ("single write", "random cuts"):
+            _, total = 0, sum(len(lspclient.frame(m)) for m in big_session(n_out, n_in)[0])
+            cuts = [] if mode == "single write" else sorted(set(rng.randrange(1, total) for _ in range(6)))
+            problems, size = big_check(exe, n_out, n_in, cuts)
+            runs += 1
+            sizes.append(size)
+            if problems:
+                again = [big_check(exe, n_out, n_in, cuts)[0] for _ in range(2)]
+                runs += 2
+                if all(again):
+                    fails.append(dict(what="a session with frames of several MiB: " + problems[0], big=dict(n_out=n_out, n_in=n_in), cuts=cuts,
+                                      problems=problems[:4]))
+    return dict(fails=fails, runs=runs, bytes_per_session=sizes)
+
+
 # ----------------------------------------------------------------------------------------------
 
 def run(ctx):
@@ -871,7 +921,9 @@ def run(ctx):
         corr_error = "coq build failed: " + vlog[-2000:]
     bl = binary_level(ctx, exe)
 
-    oracle_fails = (cl["fails"] if cl else []) + bl["fails"]
+    big = big_level(ctx, exe)
+    ctx.cov["big_frames"] = dict(runs=big["runs"], bytes_per_session=big["bytes_per_session"], failures=len(big["fails"]))
+    oracle_fails = (cl["fails"] if cl else []) + bl["fails"] + big["fails"]
     for f in sorted(oracle_fails, key=lambda f: len(json.dumps(f)))[:3]:
         f = dict(f)
         f.update(kind="oracle", property="C19", encoding=ENCODING)
@@ -958,6 +1010,11 @@ def replay(ctx, path):
     if r.get("kind") != "oracle":
         print(json.dumps(r, indent=1, ensure_ascii=False)[:4000])
         return 1
+    if "big" in r:
+        exe, _ = common.build_server()
+        problems, _ = big_check(exe, r["big"]["n_out"], r["big"]["n_in"], r.get("cuts") or [])
+        print("problems:", problems)
+        return 1 if problems else 0
     if "input" in r:  # binary level
         exe, _ = common.build_server()
         data = r["input"].encode("utf-8")
